@@ -525,6 +525,31 @@ def addT (a b : Tbl) : Except TErr Tbl :=
     .ok { a with data := a.data.map (fun p => if p.1 ∈ b.colNames then (p.1, p.2 ++ ((b.col p.1).getD [])) else p), cache := none }
   else .error .keyError
 
+/-- `Table.concatenate(tables)`: the columns common to all tables (in the model: in the first table's order; the
+    implementation iterates a set, so the order is unspecified), each the concatenation of the tables' columns; the
+    result is built by the checked constructor with the default index `"name"` -/
+def concatT (ts : List Tbl) : Except TErr Tbl :=
+  match ts with
+  | [] => .error .indexError
+  | t0 :: rest =>
+    let names := t0.colNames.filter (fun c => rest.all (fun t => decide (c ∈ t.colNames)))
+    if "name" ∈ names then
+      match names.mapM (fun c => ((t0 :: rest).mapM (fun (t : Tbl) => t.col c)).map (fun cols => (c, cols.flatten))) with
+      | none => .error .keyError
+      | some data => .ok { index := "name", colNames := names, data := data, cache := none }
+    else .error .valueError
+
+/-- `t._t`: one row per column of `t`, the index column `"columns"` holding the column names, one string column
+    `row<k>` per row of `t` -/
+def transposeT (t : Tbl) : Tbl :=
+  { index := "columns",
+    colNames := "columns" :: (List.range t.nrows).map (fun k => "row" ++ toString k),
+    data := ("columns", t.colNames.map Cell.str) ::
+      (List.range t.nrows).map (fun k => ("row" ++ toString k,
+        t.colNames.map (fun c => match (t.col c).bind (fun v => v[k]?) with
+          | some x => Cell.str (cellStr x) | none => Cell.str ""))),
+    cache := none }
+
 /-- C14's invariant: the index column is listed, every listed column is present with the table's length -/
 def Rect (t : Tbl) : Prop :=
   t.index ∈ t.colNames ∧ ∀ c ∈ t.colNames, ∃ v, t.col c = some v ∧ v.length = t.nrows
